@@ -147,7 +147,6 @@ theorem rcWindow_eq (seq : Bytes) (k i : Nat) (hik : i + k ≤ seq.length) :
     (((seq.reverse.map stdComp).drop ((seq.reverse.map stdComp).length - i - k)).take k)
       = (window seq k i).reverse.map stdComp := by
   have := rc_window (seq.map stdComp) k i (by simpa using hik)
-  rw [List.map_reverse] at this
   rw [List.map_reverse, this, window, List.map_reverse, List.map_take, List.map_drop]
 
 example : (2 : Nat) + 2 ≤ [65, 67, 71, 84, 65].length := by decide
@@ -171,6 +170,14 @@ example : compTableOK exCompTable = true ∧ (∀ b ∈ [84, 84, 65, 67], isDNAN
 /-- "TTAC", k = 2: TT→AA (rc), TA→TA, AC→AC (rc GT is larger). -/
 example : canonical exCompTable [84, 84, 65, 67] 2 = some [[65, 65], [84, 65], [65, 67]] := by
   rw [canonical_spec (by decide +kernel) _ _ (by decide)]; decide
+
+/-- `k > |seq|`: no items. -/
+example : canonical exCompTable [65] 3 = some [] := by
+  rw [canonical_spec (by decide +kernel) _ _ (by decide)]; decide
+
+/-- Instances of the hypothesis of `canonical_length` / `canonical_item` exist, with 3 items. -/
+example : ∃ items, canonical exCompTable [84, 84, 65, 67] 2 = some items ∧ items.length = 3 :=
+  ⟨_, by rw [canonical_spec (by decide +kernel) _ _ (by decide)], by decide⟩
 
 theorem canonical_panics {tbl : List UInt8} (h : compTableOK tbl = true) (seq : Bytes) (k : Nat)
     (hb : ∃ b ∈ seq, isDNAN b = false) : canonical tbl seq k = none := by
